@@ -2,7 +2,8 @@
 From Coq Require Import ZArith List Bool.
 From VF Require Import Base.RingOps Base.Mat Base.Tensor Base.Harness Base.K8 Gates.Families Sim.Ref
   Xform.KakCanon Xform.KakCanonProofs Xform.KakCount Xform.KakCountProofs Xform.KakStruct Xform.KakStructProofs
-  Xform.KakTab Xform.KakTabProofs.
+  Xform.KakTab Xform.KakTabProofs Xform.CtrlSynth Xform.CtrlSynthProofs.
+From Coq Require Import NArith.
 Import ListNotations.
 
 (* kak_canonicalize_vector reaches the canonical Weyl chamber for EVERY input (any rational multiple of pi/4:
@@ -215,3 +216,62 @@ Proof. exact @overlap_self. Qed.
 Print Assumptions C15_overlap_self.
 Example C15_overlap_self_hypothesis_satisfiable : mmul K8Ops (mdagger K8Ops (cnot_m K8Ops)) (cnot_m K8Ops) = id4 K8Ops.
 Proof. vm_compute. reflexivity. Qed.
+
+(* ---- multi-controlled synthesis on many qubits (Xform/CtrlSynth.v): the sparse state-vector semantics the returned operation lists are run in ---- *)
+(* a one-qubit gate [[a, b], [c, d]] on bit bt acts on the meaning (amplitude of |i>) of a sparse vector by the textbook rule of Base/Tensor.apply *)
+Theorem C15_sget_app1 : forall K (O : Ops K), Laws O -> forall (u : matrix (K:=K)) bt (v : sv (K:=K)) i,
+  sget O (app1 O u bt v) i =
+  if N.testbit i bt then kadd O (kmul O (mget O u 1 0) (sget O v (N.clearbit i bt))) (kmul O (mget O u 1 1) (sget O v i))
+  else kadd O (kmul O (mget O u 0 0) (sget O v i)) (kmul O (mget O u 0 1) (sget O v (N.setbit i bt))).
+Proof. exact @sget_app1. Qed.
+Print Assumptions C15_sget_app1.
+(* CNOT / CCNOT: the amplitude of |i> afterwards is that of the basis state the gate maps to |i> *)
+Theorem C15_sget_appcx : forall K (O : Ops K) c t (v : sv (K:=K)) i, c <> t ->
+  sget O (appcx c t v) i = sget O v (if N.testbit i c then flipb i t else i).
+Proof. exact @sget_appcx. Qed.
+Print Assumptions C15_sget_appcx.
+Theorem C15_sget_appccx : forall K (O : Ops K) c0 c1 t (v : sv (K:=K)) i, c0 <> t -> c1 <> t ->
+  sget O (appccx c0 c1 t v) i = sget O v (if N.testbit i c0 && N.testbit i c1 then flipb i t else i).
+Proof. exact @sget_appccx. Qed.
+Print Assumptions C15_sget_appccx.
+Example C15_sget_appcx_hypothesis_satisfiable : (1 <> 0)%N /\ (2 <> 0)%N.
+Proof. split; discriminate. Qed.
+(* sorting / merging equal indices keeps the meaning; what pruning drops is exactly the complement of what it keeps *)
+Theorem C15_sget_merge : forall K (O : Ops K), Laws O -> forall (v : sv (K:=K)) i, sget O (merge O v) i = sget O v i.
+Proof. exact @sget_merge. Qed.
+Print Assumptions C15_sget_merge.
+Theorem C15_sget_prune_split : forall K (O : Ops K), Laws O -> forall keep (v : sv (K:=K)) i,
+  sget O v i = kadd O (sget O (prune keep v) i) (sget O (prune (fun x => negb (keep x)) v) i).
+Proof. exact @sget_prune_split. Qed.
+Print Assumptions C15_sget_prune_split.
+(* the reference column of "u on the target iff every control is 1": the basis state itself off the all-ones pattern, the gate on the target bit on it *)
+Theorem C15_mcu_col_off : forall K (O : Ops K) cbits tb (u : matrix (K:=K)) k,
+  forallb (N.testbit k) cbits = false -> mcu_col O cbits tb u k = sbasis O k.
+Proof. exact @mcu_col_off. Qed.
+Print Assumptions C15_mcu_col_off.
+Theorem C15_mcu_col_on : forall K (O : Ops K), Laws O -> forall cbits tb (u : matrix (K:=K)) k i,
+  forallb (N.testbit k) cbits = true ->
+  sget O (mcu_col O cbits tb u k) i =
+  if N.testbit i tb then kadd O (kmul O (mget O u 1 0) (sget O (sbasis O k) (N.clearbit i tb))) (kmul O (mget O u 1 1) (sget O (sbasis O k) i))
+  else kadd O (kmul O (mget O u 0 0) (sget O (sbasis O k) i)) (kmul O (mget O u 0 1) (sget O (sbasis O k) (N.setbit i tb))).
+Proof. exact @mcu_col_on. Qed.
+Print Assumptions C15_mcu_col_on.
+Example C15_mcu_col_hypotheses_satisfiable : forallb (N.testbit 6) [2; 1]%N = true /\ forallb (N.testbit 5) [2; 1]%N = false.
+Proof. split; reflexivity. Qed.
+(* the validator is sound in exact arithmetic: if only zero counts as small, every column k < 2^n of the circuit has the amplitudes of the controlled gate *)
+Theorem C15_ctrl_synth_ok_sound : forall K (O : Ops K), Laws O -> forall keep small n cbits tb (u : matrix (K:=K)) ops,
+  (forall x, small x = true -> x = k0 O) -> ctrl_synth_ok O keep small n cbits tb u ops = true ->
+  forall k, In k (indices n) -> forall i, sget O (srun O keep ops (sbasis O k)) i = sget O (mcu_col O cbits tb u k) i.
+Proof. exact @ctrl_synth_ok_sound. Qed.
+Print Assumptions C15_ctrl_synth_ok_sound.
+Example C15_ctrl_synth_ok_sound_hypotheses_satisfiable :
+  (forall x, k8_eqb x (k0 K8Ops) = true -> x = k0 K8Ops) /\ ladder_ok ladder_down 4 = true.
+Proof. split; [intros x H; apply k8_eqb_sound; exact H | vm_compute; reflexivity]. Qed.
+(* Barenco et al. Lemma 7.2 (exact Toffolis, exact arithmetic, all 2^(2m-1) basis states): the ladder of borrowed qubits traversed from the target downwards
+   and back, twice, is C^m X (x) I for m = 3..6; traversed the other way it is the same gate only while there are fewer than two rungs (m = 3, 4) *)
+Theorem C15_ladder72_descending_ok : forallb (ladder_ok ladder_down) [3; 4; 5; 6] = true.
+Proof. exact ladder72_descending_ok. Qed.
+Print Assumptions C15_ladder72_descending_ok.
+Theorem C15_ladder72_ascending : map (ladder_ok ladder_up) [3; 4; 5; 6] = [true; true; false; false].
+Proof. exact ladder72_ascending. Qed.
+Print Assumptions C15_ladder72_ascending.
